@@ -253,6 +253,9 @@ impl<'tcx> Interp<'tcx> {
                         let Some((mut s, r)) = self.join_parts(parts) else { return Next::Unknown };
                         self.free_temp(&mut s, &p);
                         *st = s;
+                        if self.taint_track && r.taint_of() != 0 && r.as_int().and_then(|i| i.is_const()).is_none() {
+                            self.leak("iterator-filter", "filter predicate over tainted data");
+                        }
                         match r.as_int().and_then(|i| i.is_const()) {
                             Some(0) => continue,
                             Some(_) => return Next::Item(v, m),
@@ -873,6 +876,10 @@ impl<'tcx> Interp<'tcx> {
                         let mut t_state: Option<State> = None;
                         for (s, r) in parts {
                             let c = r.as_int().and_then(|i| i.is_const());
+                            if self.taint_track && r.taint_of() != 0 && c.is_none() {
+                                // `all` stops at the first false: the position of a failing secret element leaks
+                                self.leak("iterator-all", "short-circuit on a predicate over tainted data");
+                            }
                             if c != Some(0) {
                                 t_state = Some(match t_state {
                                     Some(x) => x.join(&s),
@@ -995,6 +1002,9 @@ impl<'tcx> Interp<'tcx> {
             let r = self.struct_eq(st, &x, &y);
             let r = if n.ends_with("::ne") { r.map(|b| !b) } else { r };
             let t = x.taint_of() | y.taint_of();
+            if self.taint_track && t != 0 && matches!(x, Val::Arr(_)) {
+                self.leak("array-eq", "early-exit comparison of arrays holding tainted data");
+            }
             return one(Val::Int(match r {
                 Some(b) => IntV::boolean(b).with_taint(t),
                 None => IntV::any_bool().with_taint(t),
